@@ -20,46 +20,65 @@ func init() {
 			"(R1) the table length is stored only by the grow, swap-remove and reset roles, and in the two that decrease it every column is zeroed for every vacated row on all paths before the store (swap-remove: all three branches; reset: both zeroing strategies; in the reset role no store of the length precedes the column reset on any path, since the columns are reset over the length they are handed); " +
 			"(R2) every raw byte copy whose operands derive from a component column is dominated by the true branch of that column's trivial (pointer-free) flag, in the function or at all its call sites; " +
 			"(R3) the function computing the trivial flag returns false for every kind whose representation holds a pointer (Pointer, Slice, Map, Chan, Interface, String, Func, UnsafePointer) and recurses into all struct fields and array elements; " +
-			"(R4) a capacity change allocates fresh typed arrays and copies the live rows on both the raw and the reflection path. Not decided: actual collectability, finalizers, behaviour under a concurrent collector.",
+			"(R4) a capacity change allocates fresh typed arrays and copies the live rows on both the raw and the reflection path; (R5) byte quantities are item-size-scaled: every expression in a byte position - a bound of a byte view of raw memory, the offset of unsafe.Add, and transitively every argument that reaches such a position through a parameter (which is how the size argument of the raw-copy role is found) - is not a number of rows by dimensional analysis (item sizes, Sizeof, Type.Size and byte-slice lengths are bytes; table lengths and what is summed from them are rows; rows x bytes are bytes; unknown dimensions are not reported). Not decided: actual collectability, finalizers, behaviour under a concurrent collector.",
 		TrustedBase: []string{"go/types, go/cfg", "reflect.New/ArrayOf return zeroed typed memory; reflect.Copy/Set/SetZero are GC-safe"},
 		Rules: []Rule{
 			{ID: "C11/R1", Run: c11r1, Min: 1},
 			{ID: "C11/R2", Run: c11r2, Min: 1},
 			{ID: "C11/R3", Run: c11r3, Min: 1},
 			{ID: "C11/R4", Run: c11r4, Min: 1},
+			{ID: "C11/R5", Run: c11r5, Min: 1},
 		},
 	})
 }
 
-// columnZeroRole: method of column with (uintptr index, unsafe.Pointer zero) zeroing one row.
+// columnRoles derives the zeroing roles of the column from who calls them: *reset* is the result-less column method
+// with a raw-pointer parameter that the table's reset role calls, *zero* the one that the table's swap-remove role
+// calls, *zeroRange* a result-less column method with a raw-pointer parameter called by reset. Signatures beyond
+// "has a raw pointer parameter, returns nothing" are not assumed.
 func columnRoles(c *core.Ctx) (zero, reset, zeroRange *core.Func) {
-	for _, f := range c.M.Funcs {
-		if f.Recv != "column" || f.Sig == nil || f.Sig.Results().Len() != 0 {
-			continue
+	m := c.M
+	tr := GetTableRoles(c)
+	isUP := func(t types.Type) bool {
+		b, ok := t.Underlying().(*types.Basic)
+		return ok && b.Kind() == types.UnsafePointer
+	}
+	cand := func(f *core.Func) bool {
+		if f == nil || f.Recv != "column" || f.Sig == nil || f.Sig.Results().Len() != 0 {
+			return false
 		}
-		ps := f.Sig.Params()
-		isUP := func(t types.Type) bool {
-			b, ok := t.Underlying().(*types.Basic)
-			return ok && b.Kind() == types.UnsafePointer
-		}
-		switch {
-		case ps.Len() == 2 && isInt(ps.At(0).Type()) && isUP(ps.At(1).Type()):
-			// Zero(index, zero) or Reset(ownLen, zero): distinguish by whether the function calls the other
-			callsColumn := false
-			core.InspectNoLits(f.Body, func(n ast.Node) bool {
-				if call, ok := n.(*ast.CallExpr); ok {
-					if k, cal, _ := c.M.Callee(call); k == core.CallStatic && cal.Recv == "column" {
-						callsColumn = true
-					}
-				}
+		for i := 0; i < f.Sig.Params().Len(); i++ {
+			if isUP(f.Sig.Params().At(i).Type()) {
 				return true
-			})
-			if callsColumn {
-				reset = f
-			} else {
-				zero = f
 			}
-		case ps.Len() == 3 && isInt(ps.At(0).Type()) && isInt(ps.At(1).Type()) && isUP(ps.At(2).Type()):
+		}
+		return false
+	}
+	calledFrom := func(g *core.Func) []*core.Func {
+		var out []*core.Func
+		if g == nil {
+			return nil
+		}
+		core.InspectNoLits(g.Body, func(n ast.Node) bool {
+			if call, ok := n.(*ast.CallExpr); ok {
+				if k, cal, _ := m.Callee(call); k == core.CallStatic && cand(cal) {
+					out = append(out, cal)
+				}
+			}
+			return true
+		})
+		return out
+	}
+	for _, f := range calledFrom(tr.Reset) {
+		reset = f
+	}
+	for _, f := range calledFrom(tr.Remove) {
+		if f != reset {
+			zero = f
+		}
+	}
+	for _, f := range calledFrom(reset) {
+		if f != reset && f != zero {
 			zeroRange = f
 		}
 	}
